@@ -418,6 +418,11 @@ fn check_server(s: &Srv, out: &mut Out, which: &str) {
         ("opcode 0".into(), vec![0, 0, 1, 2]), ("opcode 7".into(), vec![0, 7, 1, 2]), ("opcode 0xffff".into(), vec![255, 255]),
         ("RRQ no NUL".into(), vec![0, 1, b'a', b'b']), ("RRQ invalid utf8".into(), vec![0, 1, 0xff, 0xfe, 0, b'o', 0]),
         ("RRQ option without value".into(), [&[0u8, 1][..], b"hello.bin\0octet\0blksize\0"].concat()),
+        ("RRQ with one NUL of padding".into(), [&[0u8, 1][..], b"hello.bin\0octet\0\0"].concat()),
+        ("RRQ with an empty option name".into(), [&[0u8, 1][..], b"hello.bin\0octet\0blksize\0512\0\0\0"].concat()),
+        ("WRQ with two NULs of padding".into(), [&[0u8, 2][..], b"pad.bin\0octet\0\0\0"].concat()),
+        ("OACK with an empty option name".into(), vec![0, 6, 0, 0]),
+        ("ERROR code 8".into(), vec![0, 5, 0, 8, b'x', 0]),
         ("OACK junk".into(), vec![0, 6, 1, 2, 3]), ("2000 bytes".into(), vec![0x41; 2000]),
     ];
     for v in ["18446744073709551615", "18446744073709551616", "340282366920938463463374607431768211456", "-1", "abc", ""] {
